@@ -1204,6 +1204,7 @@ def replay_sub_c09(ctx, gs, K, st):
     fld0 = fa if fa.shape[0] > 1 else fa[0]
     subs = [(sorted(dict(r)["s"]), [norm_bins(dict(r)["r"])]) for r in out["subs"]]
     full = [norm_bins(out["full"])]
+    identified = 0
     for seed in (rng.randint(0, 10 ** 6), rng.randint(0, 10 ** 6)):
         est = rng.choice(["m", "c"])
         ctx.rel("sub-sample")
@@ -1220,8 +1221,8 @@ def replay_sub_c09(ctx, gs, K, st):
         if not hits:
             _fail(ctx, "rel:sub-sample:no-subset", "the sampled estimate equals the estimate on no subset of size %d" % k,
                   "sub", st, desc, _obs(v, c))
-        elif out["uniq"] and len(hits) != 1:
-            _fail(ctx, "rel:sub-sample:ambiguous", "machinery: identifiable input matched %d subsets" % len(hits), "sub", st, desc, _obs(v, c))
+        elif len(hits) == 1:  # (several subsets may share count and value of one estimator: then not identifiable)
+            identified += 1
         if not (np.array_equal(v, v2) and np.array_equal(c, c2)):
             _fail(ctx, "rel:sub-sample:not-reproducible", "two calls with sampling_seed=%d differ" % seed, "sub", st, desc,
                   {"first": _obs(v, c), "second": _obs(v2, c2)})
@@ -1230,7 +1231,7 @@ def replay_sub_c09(ctx, gs, K, st):
         _check_rel(ctx, st, "sub", "sampling_size>=n", full,
                    lambda: call_api(gs, pa, fld0, ed, est, sampling_size=big, sampling_seed=rng.randint(0, 99)), est,
                    "vario_estimate(..., sampling_size=%d)" % big)
-    return bool(out["uniq"])
+    return identified == 2
 
 
 REPLAY = {
@@ -1430,5 +1431,5 @@ def run(pid, tier, seed, replay=None):
     else:
         rule = ("inputs = every initial state TLC enumerates (the C09 theorems are invariants checked on each); for each input every applicable "
                 "relation (see related_calls_per_relation) is executed through the real vario_estimate / vario_estimate_axis and compared with the "
-                "TLC value; distinct = distinct input, non-trivial = all relations executed (sub-sampling: the subset is identifiable)")
+                "TLC value; distinct = distinct input, non-trivial = all relations executed (sub-sampling: the real result matches exactly one of TLC's subsets for both seeds)")
     return rep.finish(level="model_checking", rule=rule, exhaustive=False)
